@@ -133,13 +133,35 @@ def run_opt(case):
             m = fsites[j % len(fsites)]
             if cn.position_cn(m[0]) > 0 and m[1] not in raw.get(m[0], {}):
                 raw.setdefault(m[0], {})[m[1]] = [(60, 60)] * n
+    # stray evidence: reads showing a base change that is NOT catalogued, at the position of a catalogued core variant
+    stray = 0
+    for j, n in case.get("stray", []):
+        if fsites:
+            m = fsites[j % len(fsites)]
+            known = {o for (p_, o) in gene.mutations if p_ == m[0]}
+            ref = gene[m[0]]
+            alts = [b for b in "ACGT" if b != ref and f"{ref}>{b}" not in known]
+            if cn.position_cn(m[0]) > 0 and alts and ref in "ACGT":
+                raw.setdefault(m[0], {})[f"{ref}>{alts[(j + n) % len(alts)]}"] = [(60, 60)] * n
+                stray += 1
     cov = gen_evid.coverage_of(gene, prof, raw)
     sols = estimate_major(gene, cov, cn, "cbc")
     labels = [f"gene:{case['gene']}", f"gap:{case['gap']}", f"copies:{len(struct)}", "noisy" if case["noisy"] else "exact",
-              "weak-evidence" if case.get("weak") else "no-weak",
+              "weak-evidence" if case.get("weak") else "no-weak", "stray-evidence" if stray else "no-stray",
               "novel-evidence" if extra else "no-novel", "fusion" if any(c != "1" for c in struct) else "default-only"]
-    nf = not case["noisy"] and not extra and not case["drop"] and not case.get("weak")
+    nf = not case["noisy"] and not extra and not case["drop"] and not case.get("weak") and not stray
     viol = judge(gene, prof, raw, cn, sols, planted=tuple(sorted(sel)), noise_free=nf and not overlapping(copies), labels=labels)
+    if case.get("again") is not None:
+        # history: the SAME evidence object is asked again under another structure (what the pipeline does for every reported
+        # structure); the answer must be the one a first call would give (reference = enumerator on the raw table)
+        k = case["again"]
+        struct2 = (struct + [confs[k % len(confs)]]) if (k % 2 or len(struct) == 1) else struct[:-1]
+        if len(struct2) <= 4 and all(by[c] for c in struct2):
+            cn2 = CNSolution(gene, 0, struct2)
+            l2 = []
+            v2 = judge(gene, prof, raw, cn2, estimate_major(gene, cov, cn2, "cbc"), labels=l2)
+            viol = viol + [V("second-structure:" + v["bucket"], **v["detail"]) for v in v2]
+            labels.append("second-structure")
     if any(s.added for s in sols):
         labels.append("novel-reported")
     labels.append(f"reported:{min(len(sols), 4)}")
@@ -262,7 +284,10 @@ def strategy(tier):
              "struct": st.lists(st.integers(0, 9), min_size=1, max_size=4), "depth": st.sampled_from([10, 20, 30]),
              "noisy": st.booleans(), "extra": st.lists(st.integers(0, 30), max_size=2), "drop": st.sampled_from([0, 0, 10, 30]),
              "gap": st.sampled_from([0, 0.1, 0.5]), "seed": st.integers(0, 10 ** 6),
-             "weak": st.lists(st.tuples(st.integers(0, 30), st.integers(1, 12)).map(list), max_size=2)}
+             "weak": st.lists(st.tuples(st.integers(0, 30), st.integers(1, 12)).map(list), max_size=2),
+             "again": st.sampled_from([None, None, 0, 1, 2, 3]),
+             "stray": st.sampled_from([[], [], None]).flatmap(
+                 lambda v: st.just([]) if v is not None else st.lists(st.tuples(st.integers(0, 30), st.integers(1, 25)).map(list), min_size=1, max_size=2))}
         if g == "gen":
             d["db"] = gen_db.db_specs(gaps=False, pseudo=True, force_sv=True, small=True, max_sites=7, max_alleles=5, twins=True, orphan_core=True)
         return st.fixed_dictionaries(d)
